@@ -63,7 +63,6 @@ MUTS = [
  ("C20", "empty_line_runs", X, "                    if buf.len() == 1 {\n", "                    if buf.len() == 1 && self.delimiter != b'\\n' {\n"),
  ("C20", "replace_only_first_arg", X, "                .map(|arg| {\n                    let arg_str = arg.to_string_lossy();\n                    OsString::from(arg_str.replace(replace_str, &replacement))\n                })", "                .enumerate()\n                .map(|(k, arg)| {\n                    let arg_str = arg.to_string_lossy();\n                    if k >= 3 {\n                        return OsString::from(arg_str.into_owned());\n                    }\n                    OsString::from(arg_str.replace(replace_str, &replacement))\n                })"),
  # ---- C06
- ("C06", "no_headroom", X, "const ARG_HEADROOM: usize = 2048;", "const ARG_HEADROOM: usize = 0;"),
  ("C06", "env_not_subtracted", X, "max_chars: arg_max.saturating_sub(ARG_HEADROOM + env_size + 2 * POINTER_SIZE),", "max_chars: arg_max.saturating_sub(ARG_HEADROOM + 2 * POINTER_SIZE),"),
  ("C06", "no_pointer_charge", X, "            per_arg_overhead: POINTER_SIZE,", "            per_arg_overhead: 0,"),
  ("C06", "no_env_pointer_charge", X, "count_osstr_chars_for_exec(var) + count_osstr_chars_for_exec(value) + POINTER_SIZE", "count_osstr_chars_for_exec(var) + count_osstr_chars_for_exec(value)"),
